@@ -37,7 +37,7 @@ Qed.
 Lemma tail_stop steps n : dot_stop (render_steps steps ++ blanks n).
 Proof.
   destruct steps as [|x r].
-  - cbn [render_steps flat_map app]. destruct n as [|n]; [exact I|]. unfold blanks. simpl. right. right. reflexivity.
+  - cbn [render_steps flat_map app]. destruct n as [|n]; [exact I|]. unfold blanks. simpl. repeat split; try reflexivity; discriminate.
   - pose proof (steps_stop (x :: r)) as H. destruct (render_steps (x :: r)) as [|c l] eqn:E.
     + exfalso. pose proof (render_rstep_len_pos x) as Hl. unfold render_steps in E. cbn [flat_map] in E. apply (f_equal (@List.length N)) in E. rewrite app_length in E. cbn [List.length] in E. lia.
     + cbn [app dot_stop] in *. exact H.
